@@ -4,7 +4,7 @@ import struct
 from hypothesis import strategies as st
 
 from ndn.app_support.security_v2 import parse_certificate
-from ndn.encoding import DecodeError, Name, parse_data, parse_interest, parse_lp_packet_v2
+from ndn.encoding import parse_lp_packet, parse_network_nack, DecodeError, Name, parse_data, parse_interest, parse_lp_packet_v2
 
 from .. import keys as K
 from .. import mut as M
@@ -78,8 +78,8 @@ def lib_interest(w):
             'digest_comp': _b(sig.digest_value_buf)}
 
 
-def lib_lp(w):
-    v = parse_lp_packet_v2(w)
+def lib_lp(w, with_tl=True):
+    v = parse_lp_packet_v2(w, with_tl)
     return {'nack': True if v.nack is not None else None, 'nack_reason': None if v.nack is None else v.nack.nack_reason,
             'non_discovery': bool(v.non_discovery),
             'cache_policy_type': None if v.cache_policy is None else v.cache_policy.cache_policy_type,
@@ -87,6 +87,16 @@ def lib_lp(w):
             'next_hop_face_id': v.next_hop_face_id, 'congestion_mark': v.congestion_mark, 'pit_token': _b(v.pit_token),
             'ack': _b(v.ack), 'tx_sequence': _b(v.tx_sequence), 'prefix_announcement': _b(v.prefix_announcement),
             'fragment': _b(v.fragment)}
+
+
+def lib_lp_legacy(w, with_tl=True):
+    reason, frag = parse_lp_packet(w, with_tl)
+    return {'reason': reason, 'fragment': _b(frag)}
+
+
+def lib_lp_nack(w, with_tl=True):
+    reason, frag = parse_network_nack(w, with_tl)
+    return {'reason': reason, 'fragment': _b(frag)}
 
 
 def lib_cert(w):
@@ -124,11 +134,13 @@ def ref_data(w):
 
 def ref_interest(w):
     d = P.strict_interest(w)
+    ndc = d.get('n_digest_comps', 2)
     d = {k: v for k, v in d.items() if not k.startswith('_') and k != 'n_digest_comps'}
     if d['app_param'] is None:
         d['digest_covered'] = None
     if not d['forwarding_hint']:
         d['forwarding_hint'] = None
+    d['_ndc'] = ndc
     return d
 
 
@@ -136,6 +148,21 @@ def ref_lp(w):
     d = P.strict_lp(w)
     d.pop('cache_policy', None)
     return d
+
+
+def ref_lp_legacy(w):
+    d = P.strict_lp(w)
+    return {'reason': None if not d['nack'] else (d['nack_reason'] if d['nack_reason'] is not None else 0), 'fragment': d['fragment']}
+
+
+def ref_lp_nack(w):
+    d = P.strict_lp(w, allow_frag=True)
+    return {'reason': d['nack_reason'], 'fragment': d['fragment']} if d['nack'] else {'reason': None, 'fragment': None}
+
+
+def _value_of(ref):
+    """decoders called with with_tl=False get only the Value: strict reading = strict reading of 0x64 <len> Value"""
+    return lambda w: ref(T.enc_tlv(0x64, bytes(w)))
 
 
 def ref_cert(w):
@@ -146,7 +173,12 @@ def ref_cert(w):
 DECODERS = {
     'data': (lib_data, ref_data), 'interest': (lib_interest, ref_interest), 'lp': (lib_lp, ref_lp),
     'cert': (lib_cert, ref_cert), 'name': (lib_name, P.strict_name_wire),
+    'lp-legacy': (lib_lp_legacy, ref_lp_legacy), 'lp-nack': (lib_lp_nack, ref_lp_nack),
+    'lp-value': (lambda w: lib_lp(w, False), _value_of(ref_lp)),
+    'lp-legacy-value': (lambda w: lib_lp_legacy(w, False), _value_of(ref_lp_legacy)),
+    'lp-nack-value': (lambda w: lib_lp_nack(w, False), _value_of(ref_lp_nack)),
 }
+LP_FAMILY = ('lp-legacy', 'lp-nack', 'lp-value', 'lp-legacy-value', 'lp-nack-value')
 
 
 def _cmp(dec, a, b):
@@ -162,7 +194,9 @@ def _cmp(dec, a, b):
                 y = dict(y, content_type=y['content_type'] or 0)
         if k == 'signed' and (x is None or y is None):
             continue
-        if k == 'digest_comp':
+        if k.startswith('_'):
+            continue
+        if k == 'digest_comp' and b.get('_ndc', 2) > 1:
             continue   # C02's business (which of several digest components counts)
         if x != y:
             return k
@@ -250,7 +284,8 @@ def _input_case():
     return st.one_of(rnd, rnd_framed, gram, gram, mutated, mutated, mutated, mutated)
 
 
-OUTER = {'data': 6, 'interest': 5, 'lp': 0x64, 'cert': 6, 'name': 7}
+OUTER = {'data': 6, 'interest': 5, 'lp': 0x64, 'cert': 6, 'name': 7, 'lp-legacy': 0x64, 'lp-nack': 0x64,
+         'lp-value': 0x50, 'lp-legacy-value': 0x50, 'lp-nack-value': 0x50}
 
 
 def build(case):
@@ -278,6 +313,15 @@ def run_case(case):
     keyparts = []
     for d in targets:
         keyparts.append(_one(r, d, w, fam, case))
+    if dec == 'lp':
+        # the sibling link-layer decoders on the same bytes, and the with_tl=False forms on the bare Value
+        try:
+            el = T.read_tlv(w, 0, len(w))
+            value = w[el[2]:el[3]] if el[3] == len(w) else w
+        except T.Malformed:
+            value = w
+        for d in LP_FAMILY:
+            _one(r, d, value if d.endswith('-value') else w, fam if value is not w or not d.endswith('-value') else 'random', case)
     framed = True
     try:
         T.single(w) if dec != 'name' else T.read_tlv(w, 0, len(w))
@@ -287,6 +331,54 @@ def run_case(case):
     r.key = (fam, tuple(keyparts), tuple(m['k'] for m in case.get('muts', []))) if nontrivial else None
     r.classes = (f'dec:{dec}', f'fam:{fam}', 'framed' if framed else 'unframed') + tuple(f'{d}:{k}' for d, k in zip(targets, keyparts))
     return r
+
+
+def run_sequence(case):
+    """Several inputs decoded one after the other in one process: every verdict and field must still be the strict reading of THAT
+    input alone (a decoder is a function of the bytes, whatever was decoded - or rejected - before), and the first input decoded again
+    at the end gives the same result."""
+    r = Result()
+    keys = []
+    rejected_before_accept = False
+    seen_reject = False
+    for i, sub in enumerate(case['inputs'] + case['inputs'][:1] + _canaries()):
+        one = run_case(sub)
+        for v in one.violations:
+            r.bad(v.signature.replace('C07/', 'C07/seq/', 1), f'[input {i} of the sequence] {v.detail}')
+        if any(not v.signature.endswith('/overrun-clamped-by-slicing') for v in r.violations):
+            return r        # (the one known finding does not end the sequence)
+        acc = any(c.endswith(':both-accept') for c in one.classes)
+        rej = any(c.endswith(':both-reject') for c in one.classes)
+        if acc and seen_reject:
+            rejected_before_accept = True
+        seen_reject = seen_reject or rej
+        keys.append(one.key)
+    r.key = tuple(map(str, keys)) if rejected_before_accept and any(k is not None for k in keys) else None
+    r.classes = ('sequence', 'accept-after-reject' if rejected_before_accept else 'no-accept-after-reject')
+    return r
+
+
+def _canaries():
+    """Fixed well-formed packets decoded at the end of every sequence: whatever came before, they read as they always do."""
+    plain = {'kind': 'interest', 'case': {'kind': 'interest', 'name': [[8, '706c61696e'], [8, '78']], 'name_rep': 0, 'digest_pos': None,
+                                         'params': {'can_be_prefix': False, 'must_be_fresh': False, 'nonce': 9, 'lifetime': None,
+                                                    'hop_limit': None, 'forwarding_hint': []},
+                                         'payload': None, 'signer': {'kind': 'none'}, 'sig_time': 0, 'sig_nonce': 1}, 'sig': ''}
+    unsigned = {'kind': 'data', 'case': {'kind': 'data', 'name': [[8, '75']], 'name_rep': 0,
+                                        'meta': None, 'payload': None, 'signer': {'kind': 'none'}}, 'sig': ''}
+    return [{'fam': 'grammar', 'g': g} for g in [plain, unsigned] + list(_seed_specs())]
+
+
+def _sequence_case():
+    def same_kind(kind):
+        def fix(c):
+            return c if c['fam'] in ('random', 'random-framed') or c['g']['kind'] == kind else None
+        return fix
+    any_seq = st.lists(_input_case(), min_size=2, max_size=4)
+    # sequences through ONE decoder (state left behind by a rejected packet can only matter to the same decoder)
+    one_dec = st.sampled_from(['data', 'interest', 'lp', 'cert']).flatmap(
+        lambda kind: st.lists(_input_case().map(same_kind(kind)), min_size=3, max_size=8).map(lambda xs: [x for x in xs if x is not None]))
+    return st.one_of(any_seq, one_dec, one_dec).filter(lambda xs: len(xs) >= 2).map(lambda xs: {'inputs': xs})
 
 
 def _one(r, dec, w, fam, case):
@@ -412,4 +504,7 @@ SUBCHECKS = {
                              note='every single byte substitution (6 values) / truncation / byte insert / byte delete at every offset and every '
                                   'structural edit at every tree position of 5 seed packets (thorough); a stride-5 sample in quick'),
     'inputs': SubCheck(run_case, strategy=lambda tier: _input_case(), examples={'quick': 12000, 'thorough': 600000}),
+    'sequences': SubCheck(run_sequence, strategy=lambda tier: _sequence_case(), examples={'quick': 3000, 'thorough': 100000},
+                          note='2..8 inputs decoded one after the other in the same process (half of the sequences through one decoder), '
+                               'each compared with the strict reading of that input alone; non-trivial = an accepted input after a rejected one'),
 }
